@@ -191,7 +191,10 @@ def dump_uri(uri_value, version=LATEST_VER):
 
 
 def dump_bin(bin_value, version=LATEST_VER):
-    return 'Bin(%s)' % bin_value
+    if Version.nearest(version) < VER_3_0:
+        return 'Bin(%s)' % bin_value
+    # Haystack 3.0 has no bare Bin(mime) literal: it is written Bin("mime")
+    return 'Bin(%s)' % dump_str(bin_value, version=version)
 
 
 def dump_xstr(xstr_value, version=LATEST_VER):
